@@ -317,6 +317,65 @@ class VPaySink(PayloadSink[FloatDataType]):
         return FloatDataType
 
 
+# ---- IO components whose data side is NoDataType (context-only sources, trigger sources, null sinks): legal, and their generated
+# adapters must declare that type like any other
+from semantiva.data_types import NoDataType  # noqa: E402
+
+
+class VTriggerSrc(DataSource):
+    """Source producing no data at all (a trigger)."""
+
+    @classmethod
+    def _get_data(cls) -> NoDataType:
+        _log("VTriggerSrc")
+        return NoDataType()
+
+    @classmethod
+    def output_data_type(cls):
+        return NoDataType
+
+
+class VCtxOnlyPaySrc(PayloadSource):
+    """Payload source that only injects context key c0=1.0; no data."""
+
+    @classmethod
+    def _get_payload(cls) -> Payload:
+        _log("VCtxOnlyPaySrc")
+        return Payload(NoDataType(), ContextType({"c0": 1.0}))
+
+    @classmethod
+    def output_data_type(cls):
+        return NoDataType
+
+    @classmethod
+    def _injected_context_keys(cls):
+        return ["c0"]
+
+
+class VNullSink(DataSink[NoDataType]):
+    """Sink that accepts 'no data'."""
+
+    @classmethod
+    def _send_data(cls, data: NoDataType):
+        _log("VNullSink")
+
+    @classmethod
+    def input_data_type(cls):
+        return NoDataType
+
+
+class VNullPaySink(PayloadSink[NoDataType]):
+    """Payload sink that accepts 'no data' (context only)."""
+
+    @classmethod
+    def _send_payload(cls, payload: Payload):
+        _log("VNullPaySink")
+
+    @classmethod
+    def input_data_type(cls):
+        return NoDataType
+
+
 class VSrc2(DataSource):
     """Source producing FloatDataType(value + offset); offset defaults to 0.5."""
 
